@@ -16,9 +16,9 @@ CHECKS = {
  'C18': {
   'level': 'model_checking',
   'explanation': 'Drawn histories over three heap-allocated OndriksMTBDD<unsigned> handles that share sub-graphs (and share them with a diagram that outlives the history): per step one of construct from a cube / copy-construct or assign from another handle / self-assign / binary apply into a third or into an operand handle / destroy (harness life), plus Project, Rename, ExtendWith, GetMtbddForPrefix, unary and ternary apply and constant construction (harness derive), executed symbolically for all histories at once. After every step every live handle is read back on all assignments and compared with its shadow table, equal roots <=> equal shadows; the engine reports every use after free, double free and invalid free in the real reference-counting code; at the end the remaining handles are destroyed and the sizes of both unique tables (read-only hooks VerifLeafCacheSize / VerifInternalCacheSize) must equal the sizes recorded before the history, with the surviving diagram intact and re-constructible to the same root.',
-  'bounds': {'quick': 'histories of 3 (one universe: 4) steps with 8 actions x 3 target handles per step from 3 concrete start states (empty / two diagrams sharing a sub-graph / three diagrams incl. an apply result), 4 cube sets (shared internal node, different leaves, constants with different defaults, an all-X cube whose unused default leaf is in use elsewhere), apply = plus mod 4 / max / xor, 2 or 3 variables; with the 16-action set: 2..3 steps over 3 variables (12..20 free bits per query)',
+  'bounds': {'quick': 'histories of 3 (one universe: 4) steps with 8 actions x 3 target handles per step from 3 concrete start states (empty / two diagrams sharing a sub-graph / three diagrams incl. an apply result), 4 cube sets (shared internal node, different leaves, constants with different defaults, an all-X cube whose unused default leaf is in use elsewhere), apply = plus mod 4 / max / xor, 2 or 3 variables; with the 16-action set: 2..3 steps over 3 variables (12..20 free bits per query); third red-team round: one diagram with a symbolic value table (2 variables x 4 values, 3 variables x 2 values) and 65537 resp. 258 live handles on it (copy-constructed or assigned), 1..2 of them destroyed (10 free bits)',
              'thorough': 'as quick plus 4-step histories from every start state, a 5-step universe and 3-step histories with the 16-action set from every start state'},
-  'outside': 'more than 3 handles, histories longer than 5 steps, leaf types with their own resources (sets, vectors), diagrams over more than 3 variables, destruction order at process exit (static destruction of the unique tables is not executed)',
+  'outside': 'more than 3 handles in a drawn history (the many-references harness has 65537 copies of one diagram, thorough 131074), more than 2^17 live references to one node, histories longer than 5 steps, leaf types with their own resources (sets, vectors), diagrams over more than 3 variables, destruction order at process exit (static destruction of the unique tables is not executed)',
   'assumptions': ['handles are heap objects created with new and destroyed with delete by the harness; the temporaries returned by the apply functors are destroyed at the end of the full expression as in any client'],
   'harnesses': [
     {'name': 'life', 'src': 'harness/C18/life.cc', 'tus': ['sym_var_asgn'],
@@ -27,6 +27,11 @@ CHECKS = {
     {'name': 'derive', 'src': 'harness/C18/life.cc', 'tus': ['sym_var_asgn'],
      'configs': {'quick': _derive_quick, 'thorough': _derive_thorough},
      'selftest_config': L(2, 1, nv=3, actset=1), 'selftests': ['VS_SELFTEST_1']},
+    # one diagram (symbolic value table) with NCOPY concrete live handles on it, a symbolic number of them destroyed: a reference
+    # counter narrower than the number of live references wraps (third red-team round: uintptr_t -> uint16_t)
+    {'name': 'manyrefs', 'src': 'harness/C18/manyrefs.cc', 'tus': ['sym_var_asgn'],
+     'configs': {'quick': [{'NV': 2, 'NVAL': 4, 'NCOPY': 65537}, {'NV': 3, 'NVAL': 2, 'NCOPY': 258}], 'thorough': [{'NV': 2, 'NVAL': 4, 'NCOPY': 65537}, {'NV': 3, 'NVAL': 2, 'NCOPY': 258}, {'NV': 2, 'NVAL': 4, 'NCOPY': 131074, '_time': 2500}]},
+     'selftest_config': {'NV': 2, 'NVAL': 4, 'NCOPY': 300}, 'selftests': ['VS_SELFTEST_1']},
   ],
  },
 }
